@@ -53,6 +53,10 @@ type cubicGen struct {
 }
 
 func (g *cubicGen) monfail(key, desc string) {
+	if !g.v.State().Reno {
+		// cubic mode is never constructed by production (both NewCubicSender call sites pass reno=true)
+		key = strings.Replace(key, "cubic/", "cubicmode/", 1)
+	}
 	if g.nomon || g.reported[key] {
 		return
 	}
@@ -513,6 +517,68 @@ func (g *cubicGen) opQuery() {
 	}
 }
 
+// opPacedBurst: send as production does — a full-size packet whenever HasPacingBudget says so,
+// otherwise wait until TimeUntilSend — and check the pacing bound of C20 over every
+// sub-interval of these gated sends: bytes <= one burst + 1.25 * cwnd/srtt * elapsed.
+func (g *cubicGen) opPacedBurst() {
+	st := g.v.State()
+	srtt := g.srtt()
+	if srtt <= 0 || st.Cwnd <= 0 || st.Mds > 1<<20 {
+		return
+	}
+	type snd struct{ t, size int64 }
+	var sends []snd
+	for i := 0; i < 14; i++ {
+		now := g.now
+		ok, _ := g.do("hasbudget", u.App("QBudget", u.Z(now), u.Z(srtt)), func() int64 { return b2i(g.v.HasPacingBudget(now)) })
+		if ok == 1 {
+			pn := g.nextPN
+			g.nextPN++
+			size := st.Mds
+			g.do("sent", u.App("Sent", u.Z(now), u.Z(pn), u.Z(size), "true", u.Z(srtt)), func() int64 { g.v.OnPacketSent(now, pn, size, true); return 0 })
+			g.infl = append(g.infl, [2]int64{pn, size})
+			g.bif += size
+			if pn > g.maxSentPN {
+				g.maxSentPN = pn
+			}
+			sends = append(sends, snd{now, size})
+			g.now += g.r.Pick(0, 0, 0, 1, 1000, 50_000)
+			continue
+		}
+		g.dist["paced-gate-closed"]++
+		t, pan := g.do("timeuntil", u.App("QTimeUntil", u.Z(srtt)), func() int64 { return g.v.TimeUntilSend() })
+		if pan || t <= g.now {
+			g.now += 100_000
+		} else if g.r.Chance(1, 4) {
+			g.now += (t - g.now) / 2 // woken early: the gate must still be closed or the budget sufficient
+		} else {
+			g.now = t
+		}
+	}
+	num := new(big.Int).Mul(big.NewInt(5), big.NewInt(st.Cwnd)) // rate = num/den bytes per ns
+	den := new(big.Int).Mul(big.NewInt(4), big.NewInt(srtt))
+	burst := new(big.Int).Mul(num, big.NewInt(2_000_000))
+	burst.Quo(burst, den)
+	if t := big.NewInt(10 * st.PMds); burst.Cmp(t) < 0 {
+		burst = t
+	}
+	for a := range sends {
+		sum := big.NewInt(0)
+		for b := a; b < len(sends); b++ {
+			sum.Add(sum, big.NewInt(sends[b].size))
+			allow := new(big.Int).Mul(num, big.NewInt(sends[b].t-sends[a].t))
+			allow.Add(allow, new(big.Int).Sub(den, big.NewInt(1)))
+			allow.Quo(allow, den)
+			allow.Add(allow, burst)
+			if sum.Cmp(allow) > 0 {
+				g.monfail("cubic/paced-interval-bound", fmt.Sprintf("paced sends %d..%d (t=%d..%d) carry %s bytes > one burst %s + 1.25*cwnd/srtt*elapsed = %s (cwnd %d srtt %d)", a, b, sends[a].t, sends[b].t, sum, burst, allow, st.Cwnd, srtt))
+				return
+			}
+		}
+	}
+	g.dist["paced-burst"]++
+}
+
 // minAfterMtuWitness replays the Coq witness of C20_min_after_mtu_refuted on the implementation.
 func (g *cubicGen) minAfterMtuWitness() {
 	g.do("rto", u.App("RTO", "true"), func() int64 { g.v.OnRetransmissionTimeout(true); return 0 })
@@ -522,6 +588,7 @@ func (g *cubicGen) minAfterMtuWitness() {
 	g.monitorGrowth(b, g.v.State(), 3000)
 	g.do("lost", u.App("Lost", "2", "1280", "3000", "0"), func() int64 { g.v.OnCongestionEvent(2, 1280, 3000); return 0 })
 	g.do("setmds", u.App("SetMDS", "1452"), func() int64 { g.v.SetMaxDatagramSize(1452); return 0 })
+	g.nextPN = 3
 }
 
 // minAfterMtuWitnessProd: the same finding reached only through events the ackhandler issues
@@ -556,13 +623,16 @@ func (g *cubicGen) minAfterMtuWitnessProd() {
 		lost(i)
 	}
 	g.do("setmds", u.App("SetMDS", "1452"), func() int64 { g.v.SetMaxDatagramSize(1452); return 0 })
+	g.nextPN = 13
 	if c := g.v.Cwnd(); c != 2799 {
 		fmt.Fprintf(g.w, "INFO\tproduction-path witness ended with cwnd %d (expected 2799)\n", c)
 	}
 }
 
 func runCubic(w *bufio.Writer, seed uint64, n int, _ []string) {
-	root := u.NewRng(seed)
+	// (verifutil.NewRng(seed) and NewRng(seed+1) produce the same stream shifted by one draw;
+	// spread the seeds so that different VERIF_SEEDs give unrelated cases)
+	root := u.NewRng(seed*0x9E3779B97F4A7C15 + 0x5bd1e995)
 	dist := map[string]int{}
 	reported := map[string]bool{}
 	nontriv := 0
@@ -626,9 +696,13 @@ func runCubic(w *bufio.Writer, seed uint64, n int, _ []string) {
 					ackruns++
 					g.opAckRun()
 				}
-			case x < 88:
+			case x < 86:
 				g.rttSample()
 				g.opExitSS()
+			case x < 88:
+				if r.Chance(1, 2) {
+					g.opPacedBurst()
+				}
 			case x < 90:
 				// hystart: a burst of RTT samples within one round
 				for j := 0; j < 9; j++ {
